@@ -201,6 +201,37 @@ def construction_paths_family(out, prop):
                 if rec != want or set(so) != want or not (again == j) or set(again.__pane_set__) != want or set(cp.__pane_set__) != want:
                     out.violation(f'{prop}:input-names:set-record', f'{label} ({how}): from {data!r} the set-field record is {sorted(rec)}, dict(set_only=True) = {so!r}, '
                                   f'replace() = {again!r} / {sorted(again.__pane_set__)}; the supplied FIELDS are {sorted(want)} and {j!r} must come back', {'path': how, 'case': label})
+        # a field with its own converter: the constructor and from_data of the same fields give equal instances
+        if prop == 'C14':
+            from pane.converters import Converter
+
+            class Up(Converter):
+                def expected(self, plural=False):
+                    return 'text'
+
+                def into_data(self, v):
+                    return v
+
+                def try_convert(self, v):
+                    if not isinstance(v, str):
+                        from pane.converters import ParseInterrupt
+                        raise ParseInterrupt()
+                    return v.upper()
+
+                def collect_errors(self, v):
+                    from pane.errors import WrongTypeError
+                    return None if isinstance(v, str) else WrongTypeError('text', v)
+
+            class Named(pane.PaneBase):
+                x: str = pane.field(converter=Up())
+            n += 1
+            try:
+                a, b = Named('a'), Named.from_data({'x': 'a'})
+                if not (a == b):
+                    out.violation('C14:constructor-ignores-field-converter', f'Named(\'a\') = {a!r} but Named.from_data({{\'x\': \'a\'}}) = {b!r}: the field x has its own converter '
+                                  '(upper-casing), which the constructor does not use', {'case': 'field converter'})
+            except Exception as e:
+                out.violation(f'C14:field-converter:{type(e).__name__}', f'class with a field converter: {type(e).__name__}: {_msg(e)}', {'case': 'field converter'})
         # a hook that reads the set-field record: it sees the same record on every path (what was supplied, nothing else)
         seen = []
 
